@@ -4,6 +4,7 @@ import (
 	"context"
 	"encoding/json"
 	"fmt"
+	"io"
 	"net/http"
 	"net/http/httptest"
 	"strings"
@@ -36,7 +37,7 @@ func (c13) Assumptions() []string {
 }
 
 var c13Payload = []string{"string", "error", "nil-map write", "nil dereference", "index out of range", "custom struct", "panic(nil)", "1 MiB string", "pointer", "String() panics"}
-var c13Kinds = []string{"unary", "notification", "channel", "reverse", "custom", "after-cancel"}
+var c13Kinds = []string{"unary", "notification", "channel", "reverse", "custom", "after-cancel", "concurrent", "batch"}
 
 func (c13) Plan(tier string, seed int64) []core.Scenario {
 	var out []core.Scenario
@@ -48,7 +49,10 @@ func (c13) Plan(tier string, seed int64) []core.Scenario {
 		for pk := range c13Payload {
 			for _, ck := range c13Kinds {
 				for _, tr := range []string{"ws", "http"} {
-					if (ck == "channel" || ck == "reverse" || ck == "custom" || ck == "after-cancel") && tr == "http" {
+					if (ck == "channel" || ck == "reverse" || ck == "custom" || ck == "after-cancel" || ck == "concurrent") && tr == "http" {
+						continue
+					}
+					if ck == "batch" && tr == "ws" {
 						continue
 					}
 					if tier != "thorough" && ck == "custom" && pk%2 == 1 {
@@ -180,6 +184,70 @@ func (c13) server(sc core.Scenario, r *core.R) {
 			r.Violate("panic-call-hang", "%s: the caller cancelled, the handler then panicked, and the caller was never answered", label)
 		} else if ok, why := mentionsPanic(o.Err, pk, pt); !ok {
 			r.Violate("panic-not-reported", "%s: %s (value %q)", label, why, o.Val)
+		}
+	case "concurrent":
+		// many handlers panic at the same moment, on this and on the other connection
+		var ps []*Outcome
+		for round := 0; round < 12 && host.Alive(); round++ {
+			group := Tok("g")
+			for i := 0; i < 24; i++ {
+				c := main
+				if i%3 == 2 {
+					c = other
+				}
+				t := Tok("x")
+				ps = append(ps, Go(t, func() (string, error) { return c.BoomBarrier(bg, t, pk, group, 24) }))
+			}
+			for _, o := range ps[len(ps)-24:] {
+				o.Wait(core.Grace)
+			}
+		}
+		for _, o := range ps {
+			if !o.Wait(core.Grace) {
+				r.Violate("panic-call-hang", "%s: one of 24 simultaneously panicking calls (12 rounds) never returned (host alive=%v)", label, host.Alive())
+				break
+			} else if ok, why := mentionsPanic(o.Err, pk, o.Tok); !ok {
+				r.Violate("panic-not-reported", "%s: one of 24 simultaneous panics: %s; host alive=%v stderr=%s", label, why, host.Alive(), core.Trunc(host.Stderr(), 400))
+				break
+			}
+		}
+	case "batch":
+		// a panicking element inside an HTTP batch: the other elements are answered as if nothing happened
+		for pos := 0; pos < 3; pos++ {
+			toks := []string{Tok("b"), Tok("b"), Tok("b")}
+			var parts []string
+			for i, t := range toks {
+				if i == pos {
+					parts = append(parts, fmt.Sprintf(`{"jsonrpc":"2.0","id":%d,"method":"S.Boom","params":[%q,%d]}`, i+1, t, pk))
+				} else {
+					parts = append(parts, fmt.Sprintf(`{"jsonrpc":"2.0","id":%d,"method":"S.Echo","params":[%q,""]}`, i+1, t))
+				}
+			}
+			resp, err := http.Post("http://"+host.Addr, "application/json", strings.NewReader("["+strings.Join(parts, ",")+"]"))
+			if err != nil {
+				r.Violate("sibling-disturbed", "%s: batch with a panicking element at position %d: request failed: %v", label, pos, err)
+				continue
+			}
+			body, _ := io.ReadAll(resp.Body)
+			resp.Body.Close()
+			var arr []struct {
+				ID     int             `json:"id"`
+				Result string          `json:"result"`
+				Error  json.RawMessage `json:"error"`
+			}
+			if err := json.Unmarshal(body, &arr); err != nil || len(arr) != 3 {
+				r.Violate("sibling-disturbed", "%s: batch with a panicking element at position %d: reply is not an array of three responses: %s", label, pos, core.Trunc(string(body), 300))
+				continue
+			}
+			for i, e := range arr {
+				if i == pos {
+					if len(e.Error) == 0 || !strings.Contains(strings.ToLower(string(e.Error)), "panic") {
+						r.Violate("panic-not-reported", "%s: batch element %d panicked but its response is %s", label, i, core.Trunc(string(body), 300))
+					}
+				} else if e.ID != i+1 || e.Result != svc.Reply(toks[i]) {
+					r.Violate("sibling-disturbed", "%s: healthy batch element %d next to a panicking one was answered with id=%d result=%q error=%s", label, i, e.ID, e.Result, core.Trunc(string(e.Error), 100))
+				}
+			}
 		}
 	case "notification":
 		if err := main.BoomNote(bg, pt, pk); err != nil {
